@@ -35,7 +35,8 @@ ASSUMPTIONS = ["vlib/ref_ed25519.py / cryptography raw Ed25519 as signature orac
 @st.composite
 def _cases(draw):
     return {"doc": draw(GR.repodata()), "seed": draw(keys.seeds).hex(), "style": draw(st.sampled_from(GR.STYLES)),
-            "resign_edit": draw(st.booleans()), "sibling": draw(st.sampled_from(siblings.KINDS)), "load_mutate": draw(st.booleans())}
+            "resign_edit": draw(st.booleans()), "sibling": draw(st.sampled_from(siblings.KINDS)), "load_mutate": draw(st.booleans()),
+            "path": draw(st.sampled_from(["plain", "plain", "symlink", "relative"])), "via_cli": draw(st.integers(0, 3)) == 0}
 
 
 def expected_after(doc, seed):
@@ -49,9 +50,28 @@ def expected_after(doc, seed):
     return exp
 
 
-def _sign(fn, seed):
+def _sign(fn, seed, via_cli=False):
     try:
-        r = S.sign_all_in_repodata(fn, seed.hex())
+        if via_cli:
+            # the sign-artifacts subcommand, called in-process; the key comes from a file that lives elsewhere
+            import contextlib
+            import io
+            from conda_content_trust import cli as CLI
+            kd = tempfile.mkdtemp(prefix="c11k-")
+            try:
+                with open(os.path.join(kd, "key.hex"), "w") as f:
+                    f.write(seed.hex() + "\n")
+                with contextlib.redirect_stdout(io.StringIO()):
+                    r = CLI.cli(["sign-artifacts", fn, os.path.join(kd, "key.hex")])
+                if r not in (None, 0):
+                    raise Violation("sign-artifacts ended with status %r on a well-formed repodata file" % (r,), bucket="signing fails (cli)")
+                r = None
+            finally:
+                shutil.rmtree(kd, ignore_errors=True)
+        else:
+            r = S.sign_all_in_repodata(fn, seed.hex())
+    except Violation:
+        raise
     except Exception as e:
         raise Violation("sign_all_in_repodata raised %s on a well-formed repodata file: %s" % (type(e).__name__, str(e)[:120]),
                         bucket="signing raises " + type(e).__name__)
@@ -62,22 +82,40 @@ def check_case(case):
     doc, seed = case["doc"], bytes.fromhex(case["seed"])
     pub = keys.pub_hex(seed)
     d = tempfile.mkdtemp(prefix="c11-")
+    old_cwd = None
     try:
         fn = os.path.join(d, "repodata.json")
-        with open(fn, "wb") as f:
+        via_cli = bool(case.get("via_cli"))
+        real = fn
+        old_cwd = None
+        if case.get("path") == "symlink":
+            # the name given to the signer is a symbolic link (a "current" link into a pool directory)
+            os.mkdir(os.path.join(d, "pool"))
+            real = os.path.join(d, "pool", "repodata-0f3a.json")
+            os.symlink(os.path.join("pool", "repodata-0f3a.json"), fn)
+        with open(real, "wb") as f:
             f.write(GR.spell(doc, case["style"], canon))
+        if case.get("path") == "relative":
+            old_cwd = os.getcwd()
+            os.chdir(d)
+            fn = "repodata.json"
         if not jeq(json.load(open(fn, "rb")), doc):
             raise Violation("harness: spelled file does not parse back to the document", bucket="harness")
-        planted = siblings.plant(fn, case.get("sibling", "none"))
+        planted = siblings.plant(os.path.join(d, "repodata.json"), case.get("sibling", "none"))
         if case.get("load_mutate"):
             # another part of the program loaded the same file earlier and changed ITS copy in memory (never written back)
             mine = C.load_metadata_from_file(fn)
             if isinstance(mine, dict):
                 mine["packages"] = {}
                 mine["injected-in-memory-only"] = True
-        _sign(fn, seed)
+        _sign(fn, seed, via_cli)
         exp = expected_after(doc, seed)
         data = open(fn, "rb").read()
+        if case.get("path") == "symlink":
+            if not os.path.islink(os.path.join(d, "repodata.json")) or open(real, "rb").read() != data:
+                raise Violation("signing through a symbolic link: the link was %s and the file it names %s" % (
+                    "kept" if os.path.islink(os.path.join(d, "repodata.json")) else "replaced by a regular file",
+                    "holds the signed document" if open(real, "rb").read() == data else "was NOT updated"), bucket="symlink not followed")
         if data != canon(exp):
             got = None
             try:
@@ -104,10 +142,10 @@ def check_case(case):
                 if exp["signatures"][name][pub]["signature"] != ref_ed25519.sign(seed, canon(meta)).hex():
                     raise Violation("harness: oracle signers disagree", bucket="harness")
         # idempotence
-        _sign(fn, seed)
+        _sign(fn, seed, via_cli)
         if open(fn, "rb").read() != data:
             raise Violation("signing an already signed repodata file again changed it", bucket="not idempotent")
-        if sorted(os.listdir(d)) != sorted(["repodata.json"] + planted):
+        if sorted(os.listdir(d)) != sorted(["repodata.json"] + planted + (["pool"] if case.get("path") == "symlink" else [])):
             raise Violation("signing left extra files behind (or removed someone else's): %r" % sorted(os.listdir(d)), bucket="extra files")
         # client path
         signed = json.loads(data)
@@ -142,24 +180,28 @@ def check_case(case):
         # same process, metadata edited but sha256 kept (a repodata hotfix), signed again
         if case["resign_edit"] and arts:
             doc2 = json.loads(data)
-            sec = "packages" if doc2.get("packages") else "packages.conda"
-            nm = next(iter(doc2[sec]))
-            m = doc2[sec][nm]
-            if type(m) is dict:
-                m["depends"] = ["hotfix >=1"] + (m["depends"] if type(m.get("depends")) is list else [])
-            else:
-                doc2[sec][nm] = [m]
+            for sec in ("packages", "packages.conda"):      # one artifact in EACH section gets the hotfix
+                if not doc2.get(sec):
+                    continue
+                nm = sorted(doc2[sec])[-1]
+                m = doc2[sec][nm]
+                if type(m) is dict:
+                    m["depends"] = ["hotfix >=1"] + (m["depends"] if type(m.get("depends")) is list else [])
+                else:
+                    doc2[sec][nm] = [m]
             with open(fn, "wb") as f:
                 f.write(canon(doc2))
-            _sign(fn, seed)
+            _sign(fn, seed, via_cli)
             if open(fn, "rb").read() != canon(expected_after(doc2, seed)):
                 raise Violation("after editing an artifact's metadata (sha256 unchanged) and signing again in the same "
                                 "process, the file is not the expected signed document (stale signature?)",
                                 bucket="re-sign after edit")
     finally:
+        if old_cwd is not None:
+            os.chdir(old_cwd)
         shutil.rmtree(d, ignore_errors=True)
     n1, n2 = len(doc.get("packages", {})), len(doc.get("packages.conda", {}))
-    labs = ["sibling=" + ("yes" if case.get("sibling", "none") != "none" else "no"), "style=" + case["style"], "both-sections" if n1 and n2 else "one-section" if n1 or n2 else "no-artifacts",
+    labs = ["path=" + case.get("path", "plain"), "cli" if case.get("via_cli") else "api", "sibling=" + ("yes" if case.get("sibling", "none") != "none" else "no"), "style=" + case["style"], "both-sections" if n1 and n2 else "one-section" if n1 or n2 else "no-artifacts",
             "stale-signatures" if "signatures" in doc else "no-signatures-before", "packages.conda-absent"
             if "packages.conda" not in doc else "packages.conda-present"]
     return {"nontrivial": bool((n1 and n2) or "signatures" in doc or case["style"] != "canonical"), "labels": labs,
@@ -173,20 +215,23 @@ def enum_fixtures(tier):
     # sizes: small, and big with totals that are no multiple of 2, 4, 8 ... (n + n // 2 artifacts: 97, 5002; 1537, 7500, 12286)
     for n in ([65, 3335] if tier == "quick" else [65, 1025, 3335, 5000, 8191]):
         yield {"synthetic": n, "seed": keys.POOL[3].hex()}
+    # sections as big as the busiest real channels have them, with counts that are no multiple of anything
+    for n1, n2 in ([(50003, 3), (5, 16387)] if tier == "quick" else [(50003, 3), (5, 16387), (200003, 100001), (65537, 65539)]):
+        yield {"synthetic": n1, "synthetic_conda": n2, "seed": keys.POOL[4].hex()}
 
 
-def _synthetic(n):
+def _synthetic(n, n2=None):
     """many artifacts (no implementation limit on their number is part of the property)"""
     pk = {"pkg-%05d-1.0-0.tar.bz2" % i: {"name": "pkg-%05d" % i, "version": "1.0", "build_number": i % 7, "depends": [], "size": i}
           for i in range(n)}
     pc = {"pkg-%05d-1.0-0.conda" % i: {"name": "pkg-%05d" % i, "version": "1.0", "build_number": i % 7, "depends": [], "size": i + 1}
-          for i in range(n // 2)}
+          for i in range(n // 2 if n2 is None else n2)}
     return {"info": {"subdir": "linux-64"}, "packages": pk, "packages.conda": pc, "repodata_version": 1}
 
 
 def _check_big(case):
     seed = bytes.fromhex(case["seed"])
-    doc = _synthetic(case["synthetic"])
+    doc = _synthetic(case["synthetic"], case.get("synthetic_conda"))
     d = tempfile.mkdtemp(prefix="c11b-")
     try:
         fn = os.path.join(d, "repodata.json")
@@ -195,10 +240,10 @@ def _check_big(case):
         _sign(fn, seed)
         if open(fn, "rb").read() != canon(expected_after(doc, seed)):
             raise Violation("a repodata file with %d + %d artifacts is not signed completely and faithfully"
-                            % (case["synthetic"], case["synthetic"] // 2), bucket="output differs: many artifacts")
+                            % (len(doc["packages"]), len(doc["packages.conda"])), bucket="output differs: many artifacts")
     finally:
         shutil.rmtree(d, ignore_errors=True)
-    return {"nontrivial": True, "labels": ["artifacts=%d" % (case["synthetic"] + case["synthetic"] // 2)]}
+    return {"nontrivial": True, "labels": ["artifacts=%d" % (len(doc["packages"]) + len(doc["packages.conda"]))]}
 
 
 def check_fixture(case):
@@ -213,7 +258,7 @@ UNITS = [
     Unit("sign", check_case, strategy=_cases, quick=500, thorough=20000,
          essential=["both-sections", "stale-signatures", "packages.conda-absent", "style=compact"],
          doc="sign_all_in_repodata: full expected-output differential, idempotence, client path, cross-artifact"),
-    Unit("fixtures", check_fixture, enumerate=enum_fixtures, exhaustive=True, shards_quick=2,
+    Unit("fixtures", check_fixture, enumerate=enum_fixtures, exhaustive=True, shards_quick=10,
          doc="the shipped repodata samples under three keys"),
     _cfgunit.unit_under_config(PROPERTY, 'sign', exclude=()),
     _interfere.unit_after(PROPERTY, 'sign', quick=150, thorough=6000),
